@@ -57,6 +57,7 @@ unsigned char nondet_uchar(void);
 static void *vf_block(size_t n)
 {
 #ifdef VF_ALLOC_CONCRETE
+    if (n == 64) { return malloc(64); }      /* a cJSON node */
     __CPROVER_assert(n <= VF_ALLOC_CONCRETE, "allocator model: request within the concrete-size bound");
     __CPROVER_assume(n <= VF_ALLOC_CONCRETE);
     for (size_t k = 0; k <= VF_ALLOC_CONCRETE; k++) { if (k == n) { return malloc(k); } }
@@ -125,8 +126,8 @@ void *(*vf_fp_r2)(void*, size_t) = vf_libc_realloc;
  * so a call on any other object is reported, never silently accepted. */
 #define VF_REM(s) (__CPROVER_OBJECT_SIZE(s) - __CPROVER_POINTER_OFFSET(s))
 
-#ifndef VF_BUILTIN_STRINGS
 size_t g_nul_at;   /* ghost hint for units compiled with -DVF_STRLEN_HINT: s[g_nul_at] is known to be NUL */
+#ifndef VF_BUILTIN_STRINGS
 size_t strlen(const char *s)
 {
     size_t i = 0;
@@ -334,6 +335,27 @@ int vf_sprintf_u_04x(char *s, unsigned c)
     s[0] = 'u'; s[1] = hx[(c >> 12) & 15]; s[2] = hx[(c >> 8) & 15]; s[3] = hx[(c >> 4) & 15]; s[4] = hx[c & 15]; s[5] = 0;
     return 5;
 }
+
+/* sprintf formats used by cJSON_Utils.c ("/%lu%s", "%s/", "%s/%lu", "%lu"): exact models for bounded units (strings <= 64 bytes, asserted) */
+static size_t vf_put_dec(char *dst, unsigned long v)
+{
+    char tmp[20]; size_t n = 0, i;
+    do { tmp[n++] = (char)('0' + v % 10); v /= 10; } while (v != 0 && n < 20);
+    for (i = 0; i < 20; i++) { if (i >= n) break; dst[i] = tmp[n - 1 - i]; }
+    return n;
+}
+static size_t vf_put_str(char *dst, const char *src)
+{
+    size_t i;
+    for (i = 0; i < 64; i++) { dst[i] = src[i]; if (src[i] == 0) return i; }
+    __CPROVER_assert(0, "sprintf %s model: string longer than 64 bytes");
+    return 64;
+}
+int vf_sprintf___lu_s(char *dst, unsigned long idx, const unsigned char *tail) { size_t n = 0; dst[n++] = '/'; n += vf_put_dec(dst + n, idx); n += vf_put_str(dst + n, (const char*)tail); return (int)n; }
+int vf_sprintf__s_(char *dst, const char *path) { size_t n = vf_put_str(dst, path); dst[n++] = '/'; dst[n] = 0; return (int)n; }
+int vf_sprintf__s__lu(char *dst, const unsigned char *path, unsigned long idx) { size_t n = vf_put_str(dst, (const char*)path); dst[n++] = '/'; n += vf_put_dec(dst + n, idx); dst[n] = 0; return (int)n; }
+int vf_sprintf__lu(char *dst, unsigned long idx) { size_t n = vf_put_dec(dst, idx); dst[n] = 0; return (int)n; }
+
 int vf_sscanf__lg(const char *s, double *d)
 {
     __CPROVER_assert(__CPROVER_r_ok(s, 1), "sscanf: readable");
